@@ -30,7 +30,6 @@ ASSUMPTIONS = ['the CPython finaliser runs when the last reference is dropped (d
 MIN_NONTRIVIAL = {'quick': 40, 'thorough': 400}
 NPROC = {'quick': 4, 'thorough': 12}
 KEY_EVAL = 'C05/eval/bare-name-aliases-input'
-KEY_LEGACY = 'C05/legacy-helpers/return-views'
 
 
 def _hist(rng):
@@ -63,7 +62,13 @@ QUERIES = TIMEQ + ['val2idx_nearest', 'val2idx_bounds', 'val2idx_exact', 'repr',
            # pncexpr (bare name, view, augmented assignment; closing its result is not closing the input); a data dump of a
            # masked-type variable that holds NaN / inf next to no missing cell; time flags of time-independent data (0, 0)
            'eval_aug', 'eval_setitem', 'pncexpr_bare', 'pncexpr_view', 'pncexpr_aug', 'pncexpr_close', 'dump_nan',
-           'getTimes_tflag0']
+           'getTimes_tflag0',
+           # the functional helpers behind pncgen's options: a range through slice_dim (a view unless copied), the weights
+           # form of interpolation (dimension objects and untouched variables), point extraction (variables without
+           # latitude / longitude); assignments to several targets at once and into an array-valued global attribute with
+           # inplace=False; deleting / renaming in the wrapper pncexpr returns
+           'slice_dim_range', 'interpvars', 'extract_lonlat', 'eval_tuple', 'pncexpr_tuple', 'eval_attrarr', 'pncexpr_attrarr',
+           'pncexpr_del', 'pncexpr_rename']
 
 
 def _pure(rng):
@@ -71,9 +76,12 @@ def _pure(rng):
     for v in spec['vars']:
         if v['dtype'] == 'f':
             v['dtype'] = 'd'
-    st = dict(dims={d[0]: d[1] for d in spec['dims']}, vars={v['name']: v['dims'] for v in spec['vars']})
+    st = dict(dims={d[0]: d[1] for d in spec['dims']}, vars={v['name']: v['dims'] for v in spec['vars']},
+              dtype={v['name']: v['dtype'] for v in spec['vars']})
     if rng.random() < 0.6:
         op = c01._op(rng, st)
+        if op[0] == 'eval':
+            op = ['copy']       # the sequences of C01 evaluate in place: that is allowed to modify the receiver
     else:
         op = ['query', rng.choice(QUERIES)]
     # reference times written with the hour only are units the library reads (06Z, 06 UTC, T06)
@@ -111,6 +119,14 @@ def gen(rng, tier):
             if v['dtype'] == 'f':
                 v['dtype'] = 'd'
         out.append(dict(kind='pure', spec=spec, op=q, tunits='hours since 2001-02-03 00:00:00+0000', disk=True))
+    # the functional helpers and the statements that write, on every run, on files that have coordinate variables
+    for q in ('slice_dim', 'slice_dim_range', 'getvarpnc', 'pncrename', 'interpvars', 'extract_lonlat', 'eval_tuple', 'pncexpr_tuple',
+              'eval_attrarr', 'pncexpr_attrarr', 'pncexpr_del', 'pncexpr_rename', 'eval_aug', 'pncexpr_aug'):
+        spec = pfile.gen_file(rng, maxlen=3, coord_prob=1.0, scalar_prob=0.0)
+        for v in spec['vars']:
+            if v['dtype'] == 'f':
+                v['dtype'] = 'd'
+        out.append(dict(kind='pure', spec=spec, op=['query', q], tunits='hours since 2001-02-03 00:00:00+0000', disk=False))
     # the history that used to break another file (double close through the finaliser)
     out.append(dict(kind='hist', evs=[['o', 0], ['c', 0], ['o', 1], ['d', 0]]))
     out.append(dict(kind='hist', evs=[['o', 0], ['o', 1], ['c', 0], ['c', 0], ['o', 2], ['c', 0], ['d', 0]]))
@@ -305,6 +321,72 @@ def _query(f, q, spec):
             return F.pncexpr('%s += 1' % k, f), [k]
         g = F.pncexpr('NEWVAR = %s[:] * 2' % k, f)
         g.close()
+        return None
+    if q == 'slice_dim_range':
+        return F.slice_dim(f, '%s,0,2' % list(f.dimensions)[-1])
+    if q == 'interpvars':
+        cs = [c for c in f.dimensions if len(f.dimensions[c]) >= 1 and len(f.dimensions[c]) != 2 and
+              all(f.variables[k].dtype.kind in 'fiu' for k in f.variables if c in f.variables[k].dimensions)]
+        if not cs:
+            return None
+        n = len(f.dimensions[cs[0]])
+        return F.interpvars(f, np.ones((2, n), dtype='d') / n, cs[0])
+    if q == 'extract_lonlat':
+        # a file of its own (the helper wants latitude / longitude): variables with and without the horizontal dimensions
+        h = pnc.PseudoNetCDFFile()
+        h.createDimension('time', 2)
+        h.createDimension('latitude', 2)
+        h.createDimension('longitude', 3)
+        for k, dims, vals in (('time', ('time',), [0., 1.]), ('latitude', ('latitude',), [10., 20.]),
+                              ('longitude', ('longitude',), [100., 110., 120.]),
+                              ('A', ('time', 'latitude', 'longitude'), np.arange(12.).reshape(2, 2, 3))):
+            v = h.createVariable(k, 'd', dims)
+            v[:] = vals
+        before = _snap(h)
+        g = F.extract_lonlat(h, '100,10/120,20')
+        for k in g.variables:
+            try:
+                g.variables[k][...] = -5
+            except Exception:
+                pass
+        d = _diffsnap(before, _snap(h))
+        if d:
+            raise lib.HarnessError('ARGCHANGED writing into the result of extract_lonlat changed the input: %s' % d)
+        return None
+    if q in ('eval_tuple', 'pncexpr_tuple'):
+        ks = [k for k in f.variables if k not in coords and f.variables[k].ndim > 0 and k.isidentifier() and f.variables[k].shape[0] > 0]
+        if not ks:
+            return None
+        a, b = ks[0], ks[-1]
+        expr = '%s[0], %s[0] = 100, 200; NEWVAR = %s * 1' % (a, b, a)
+        if q == 'eval_tuple':
+            return f.eval(expr)
+        return F.pncexpr(expr, f), ['NEWVAR']
+    if q in ('eval_attrarr', 'pncexpr_attrarr'):
+        # an array-valued global attribute (level edges) written into by a statement of the expression
+        h = pnc.PseudoNetCDFFile()
+        h.createDimension('x', 3)
+        v = h.createVariable('A', 'd', ('x',))
+        v[:] = [1., 2., 3.]
+        h.VG = np.array([1., 2., 3.])
+        before = _snap(h)
+        if q == 'eval_attrarr':
+            h.eval('VG[0] = 99; C = A * 2')
+        else:
+            F.pncexpr('VG[0] = 99; C = A * 2', h)
+        d = _diffsnap(before, _snap(h))
+        if d:
+            raise lib.HarnessError('ARGCHANGED %s with inplace=False wrote into an attribute of its input: %s' % (q, d))
+        return None
+    if q in ('pncexpr_del', 'pncexpr_rename'):
+        ks = [k for k in f.variables if k not in coords and f.variables[k].ndim > 0 and k.isidentifier()]
+        if not ks:
+            return None
+        r = F.pncexpr('NEWVAR = %s * 2' % ks[0], f)
+        if q == 'pncexpr_del':
+            del r.variables[ks[0]]
+        else:
+            r.renameVariables(inplace=True, **{ks[0]: 'RENAMED_IN_RESULT'})
         return None
     if q == 'dump_nan':
         import io
@@ -600,10 +682,6 @@ def oracle(case, res):
 
 
 def classify(case, failure, model_out):
-    if case['kind'] == 'pure' and case['op'][0] == 'query':
-        q = case['op'][1]
-        if q in ('slice_dim', 'getvarpnc', 'pncrename') and ('aliasing' in failure or 'writing into the result' in failure):
-            return KEY_LEGACY
     return None
 
 
@@ -615,10 +693,7 @@ def nontrivial(case, res):
 
 
 def witnesses():
-    spec = dict(dims=[['t', 2, False], ['x', 3, False]], attrs=[],
-                vars=[dict(name='A', dims=['t', 'x'], dtype='d', masked=False, attrs=[], data=[1, 2, 3, 4, 5, 6]),
-                      dict(name='x', dims=['x'], dtype='d', masked=False, attrs=[], data=[10, 20, 30])])
-    return [(KEY_LEGACY, dict(kind='pure', spec=spec, op=['query', 'slice_dim']))]
+    return []
 
 
 def distribution(recs):
